@@ -515,7 +515,7 @@ long long c_voronoi(long long nrows, long long ncols,
             return GRID_ERROR + __LINE__;
 
         /* Find closest point */
-        distmin = 1e30;
+        distmin = INFINITY;
         jmin = 0;
         for(j=0; j<npoints; j++){
             dx = xy[0]-xypoints[2*j];
